@@ -33,5 +33,3 @@ Definition frac (k n : Z) : Q := Qmake k (Z.to_pos n).
 (* ---- fitted curves (np.polyfit: highest power first) *)
 Definition line (a b x : R) : R := (a * x + b)%R.
 Definition quadratic (a b c x : R) : R := (a * (x * x) + b * x + c)%R.
-(* the straight line through (ns0,p0) and (ns1,p1) *)
-Definition secant (ns0 ns1 p0 p1 x : R) : R := (p0 + (x - ns0) * ((p1 - p0) / (ns1 - ns0)))%R.
